@@ -54,18 +54,23 @@ where
     loop {
         let mut buf = [0];
         r.read_exact(&mut buf)?;
-        if shift == 127 && buf[0] != 0x00 && buf[0] != 0x01 {
+        let low_bits = (buf[0] & !CONTINUATION_BIT) as u128;
+        // The 19th byte (shift 126) has room for two more bits; later bytes can only be padding.
+        if (shift == 126 && low_bits > 0x03) || (shift > 126 && low_bits != 0) {
             while buf[0] & CONTINUATION_BIT != 0 {
                 r.read_exact(&mut buf)?;
             }
             return Err(Error::msg("nat overflow"));
         }
-        let low_bits = (buf[0] & !CONTINUATION_BIT) as u128;
-        result |= low_bits << shift;
+        if shift <= 126 {
+            result |= low_bits << shift;
+        }
         if buf[0] & CONTINUATION_BIT == 0 {
             return Ok(result);
         }
-        shift += 7;
+        if shift <= 126 {
+            shift += 7;
+        }
     }
 }
 pub fn decode_int<R>(r: &mut R) -> Result<i128>
@@ -80,15 +85,26 @@ where
         let mut buf = [0];
         r.read_exact(&mut buf)?;
         byte = buf[0];
-        if shift == 127 && byte != 0x00 && byte != 0x7f {
+        let low_bits = (byte & !CONTINUATION_BIT) as i128;
+        // The 19th byte (shift 126) holds bits 126..=132: bits 127 and up must all equal
+        // the sign. Later bytes can only repeat the sign (padding).
+        let overflow = if shift == 126 {
+            low_bits != 0x00 && low_bits != 0x01 && low_bits != 0x7e && low_bits != 0x7f
+        } else if shift > 126 {
+            low_bits != if result < 0 { 0x7f } else { 0x00 }
+        } else {
+            false
+        };
+        if overflow {
             while buf[0] & CONTINUATION_BIT != 0 {
                 r.read_exact(&mut buf)?;
             }
             return Err(Error::msg("int overflow"));
         }
-        let low_bits = (byte & !CONTINUATION_BIT) as i128;
-        result |= low_bits << shift;
-        shift += 7;
+        if shift <= 126 {
+            result |= low_bits << shift;
+            shift += 7;
+        }
         if byte & CONTINUATION_BIT == 0 {
             break;
         }
